@@ -369,6 +369,7 @@ pub fn run(out: &mut Out, thorough: bool, seed: u64, _extra: &[String]) {
         if thorough || pi < 10 { directed_size_pairs(out, &s, &mut r); }
         if thorough || pi < 10 { directed_relin_levels(out, &s, &mut r); }
         if thorough || pi < 10 { directed_squares(out, &s, &mut r); }
+        if thorough || pi < 10 { crate::many::directed_many(out, &s, &mut r); }
         let mut prog = Prog::new(&s, &mut r, 3);
         let mut done = 0; let mut tries = 0;
         while done < steps && tries < steps * 6 {
